@@ -27,7 +27,7 @@ const (
 	// handlers that answer from the database (up to 103 blocks) stay below 2 MiB.
 	AllocPerByte = 1024
 	AllocConst   = 8 << 20
-	// CPUAbsurd: process CPU time (getrusage, user+system) of one call on an input below
+	// CPUAbsurd: process user CPU time (getrusage ru_utime) of one call on an input below
 	// CPUSmallInput bytes above which the call is reported.
 	CPUAbsurd     = 5 * time.Second
 	CPUSmallInput = 64 << 10
@@ -65,7 +65,20 @@ func (h *Harness) Report() {
 	}
 }
 
+// cpuTime is the USER CPU time of the process. System time is deliberately left out: on a
+// machine under memory pressure direct page reclaim is charged to the allocating process as
+// system time (observed: "200 s" for decoding a 2-byte string), while a spinning loop in the
+// code under test accrues user time.
 func cpuTime() time.Duration {
+	var ru syscall.Rusage
+	if err := syscall.Getrusage(syscall.RUSAGE_SELF, &ru); err != nil {
+		return 0
+	}
+	return time.Duration(ru.Utime.Nano())
+}
+
+// allCPUTime is user+system time (bookkeeping of where the run's CPU goes; no verdict).
+func allCPUTime() time.Duration {
 	var ru syscall.Rusage
 	if err := syscall.Getrusage(syscall.RUSAGE_SELF, &ru); err != nil {
 		return 0
@@ -140,7 +153,7 @@ func (h *Harness) watchdog() {
 		wit := map[string]any{"entry": a.entry, "class": a.class, "input_len": len(a.input), "input_hex": hexCap(a.input), "cpu_burned_s": burned.Seconds(), "stack": callStack()}
 		switch {
 		case burned >= HangCPU:
-			a.k.Violation("hang:"+a.entry, fmt.Sprintf("call did not return within %v and burned %.0f s of CPU time without returning", HangWall, burned.Seconds()), wit)
+			a.k.Violation("hang:"+a.entry, fmt.Sprintf("call did not return within %v and burned %.0f s of user CPU time without returning", HangWall, burned.Seconds()), wit)
 		case idle:
 			a.k.Inconclusive("no-return-without-cpu:" + a.entry)
 		default:
@@ -198,13 +211,13 @@ func (h *Harness) Call(k *mon.Case, entry, class string, input []byte, fn func()
 		res.Skipped = true
 		return
 	}
-	cpu0 := cpuTime()
+	cpu0 := allCPUTime()
 	k.Stage(input)
 	k.Eval(1)
 	k.Count("calls:"+entry, 1)
-	a := &active{k: k, entry: entry, class: class, input: input, wall: time.Now()}
+	a := &active{k: k, entry: entry, class: class, input: input}
 	runtime.ReadMemStats(&h.before)
-	a.cpu = cpuTime()
+	a.wall, a.cpu = time.Now(), cpuTime()
 	h.cur.Store(a)
 	func() {
 		defer func() {
@@ -225,7 +238,7 @@ func (h *Harness) Call(k *mon.Case, entry, class string, input []byte, fn func()
 	h.cur.Store(nil)
 	res.CPU = cpuTime() - a.cpu
 	runtime.ReadMemStats(&h.after)
-	h.cpuBy[entry] += cpuTime() - cpu0
+	h.cpuBy[entry] += allCPUTime() - cpu0
 	res.Alloc = h.after.TotalAlloc - h.before.TotalAlloc
 	if bound := uint64(AllocPerByte)*uint64(len(input)) + AllocConst; res.Alloc > bound {
 		k.Violation("alloc:"+entry, fmt.Sprintf("call allocated %d bytes for an input of %d bytes (bound %d*len+%d)", res.Alloc, len(input), AllocPerByte, AllocConst),
@@ -235,7 +248,7 @@ func (h *Harness) Call(k *mon.Case, entry, class string, input []byte, fn func()
 		k.Count("alloc_above_1MiB:"+entry, 1)
 	}
 	if res.CPU > CPUAbsurd && len(input) < CPUSmallInput {
-		k.Violation("cpu:"+entry, fmt.Sprintf("call used %.1f s of CPU time for an input of %d bytes", res.CPU.Seconds(), len(input)),
+		k.Violation("cpu:"+entry, fmt.Sprintf("call used %.1f s of user CPU time for an input of %d bytes", res.CPU.Seconds(), len(input)),
 			map[string]any{"entry": entry, "class": class, "input_len": len(input), "input_hex": hexCap(input), "cpu_s": res.CPU.Seconds()})
 	}
 	if res.CPU > time.Second {
